@@ -12,7 +12,7 @@ from lib import common, play, stories
 LEVEL = "proof"
 WANT_RELEASE = True
 ALWAYS_RELEASE = True
-THEOREM_MODULES = ["Proofs.C04"]
+THEOREM_MODULES = ["Proofs.C04", "Proofs.C04Inv", "Proofs.C04Ptr"]
 REQUIRED_THEOREMS = [
     "Ink.C04.wrapI32_inRange", "Ink.C04.wrapI32_of_inRange", "Ink.C04.wrapI32_congr",
     "Ink.C04.int_add_wraps", "Ink.C04.int_sub_wraps", "Ink.C04.int_mul_wraps", "Ink.C04.int_neg_wraps",
@@ -23,6 +23,23 @@ REQUIRED_THEOREMS = [
     "Ink.C04.int_call_results_inRange", "Ink.C04.error_blocks_continue", "Ink.C04.reset_independent_of_state",
     "Ink.C04.reset_after_error_no_errors", "Ink.C04.continueSingleStep_err_origin",
     "Ink.C04.native_call_never_panics", "Ink.C04.step_panic_sites", "Ink.C04.continueSingleStep_panic_sites",
+    # the call-stack invariant (Proofs/C04Inv.lean): established by construction and by every accepted load,
+    # kept by every public operation, and under it three of the residual panic sites are unreachable
+    "Ink.C04.csWF_fresh", "Ink.C04.push_isSome_of_wf", "Ink.C04.forkThread_isSome_of_wf",
+    "Ink.C04.step_preserves_wf", "Ink.C04.step_no_callstack_panic", "Ink.C04.step_panic_sites_wf",
+    "Ink.C04.tryFollowDefaultInvisibleChoice_no_callstack_panic", "Ink.C04.continueSingleStep_preserves_wf",
+    "Ink.C04.cont_preserves_wf", "Ink.C04.continueMaximally_preserves_wf", "Ink.C04.chooseChoiceIndex_preserves_wf",
+    "Ink.C04.choosePathString_preserves_wf", "Ink.C04.switchFlow_preserves_wf", "Ink.C04.removeFlow_preserves_wf",
+    "Ink.C04.resetState_preserves_wf", "Ink.C04.evaluateFunction_preserves_wf", "Ink.C04.new_wf",
+    "Ink.C04.loadState_wf", "Ink.C04.loadState_preserves_wf", "Ink.C04.reachable_wf",
+    "Ink.C04.reachable_no_callstack_panic", "Ink.C04.reachable_cont_no_callstack_panic",
+    "Ink.C04.reachable_evaluateFunction_no_callstack_panic", "Ink.C04.reachable_chooseChoiceIndex_no_thread_panic",
+    # the remaining sites (Proofs/C04Ptr.lean): four by control flow alone, two from invariants of the loaded tree
+    "Ink.C04.no_panic_increment_content_pointer", "Ink.C04.no_panic_shuffle_container",
+    "Ink.C04.no_panic_visit_index_container", "Ink.C04.no_panic_get_path", "Ink.C04.no_panic_resolve_path",
+    "Ink.C04.no_panic_get_target_path_string", "Ink.C04.load_treeOK", "Ink.C04.step_panic_sites_any",
+    "Ink.C04.step_panic_sites_tree", "Ink.C04.step_never_panics", "Ink.C04.continueSingleStep_never_panics",
+    "Ink.C04.reachable_step_panic_sites", "Ink.C04.loaded_reachable_never_panics",
 ]
 RULE = ("a case = (a) one fault-prone expression tree (operand types chosen at random with probability 0.35, plus the "
         "ill-typed part of the exhaustive depth-1 enumeration), compiled and played; or (b) one fault-prone program "
@@ -37,7 +54,16 @@ ASSUMPTIONS = ["a program the compiler rejects, or on which the compiler itself 
 EXPLANATION = ("Theorems: 32-bit wrap-around of + - * unary-minus, division / modulo defined exactly when the divisor "
                "is non-zero and the quotient fits, every native call on values is panic-free, a fault raised by a step "
                "is recorded and reported (Err without handler, callback with one), reset after an error equals a fresh "
-               "story. Oracle on the real code: no result of any call is a panic or an abort, faults of the "
+               "story. step_panic_sites: one interpreter step can end in a panic only at 8 named sites, whatever the state; "
+               "Proofs/C04Inv.lean removes three of them (callstack.rs:push, callstack.rs:fork_thread, "
+               "choices.rs:thread_at_generation) for every story reachable through the public operations, by an "
+               "invariant (every thread of every flow, snapshot and pending choice has a non-empty call stack) that "
+               "construction and every accepted load establish and every operation keeps (2700 lines); Proofs/C04Ptr.lean "
+               "removes the other six (four by the control flow of the step alone, for any state; two from invariants "
+               "of the tree that the story loader is proved to establish: the root is a container, every divert has a "
+               "target or a variable name), so that for every story reachable from a loaded document one interpreter "
+               "step - and continue_single_step - never ends in a panic (loaded_reachable_never_panics). "
+               "Oracle on the real code: no result of any call is a panic or an abort, faults of the "
                "independent evaluator are reported as errors, debug and release transcripts agree, reset story = "
                "fresh story. Tie: every transcript is replayed on the model.")
 
